@@ -293,10 +293,10 @@ def run(ctx):
             stdout=subprocess.PIPE, stderr=subprocess.STDOUT, text=True)))
     sweep_bad = []
     for fname, kind, start, p in procs:
-        out = p.communicate()[0]
+        rc, out = common.coq_result(d, fname, p)
         for ext in (".v", ".vo", ".vok", ".vos", ".glob"):
             (d / f"{fname}{ext}").unlink(missing_ok=True)
-        if p.returncode != 0:
+        if rc != 0:
             errors.append(f"{fname}: {out[-800:]}")
             continue
         if kind == "w":
